@@ -256,8 +256,9 @@ StringDictionaryRPHTFC::StringDictionaryRPHTFC(IteratorDictString *it,
           codeSubstr = codeSubstr >> (ptrSubstr - TABLEBITSO);
           ptrSubstr = TABLEBITSO;
         } else {
-          if ((bucket == buckets) && (elements % bucketsize == 0)) {
-            // The last element is directly padded
+          if (ptrB >= ptrE) {
+            // No internal strings follow the header (it is the last element):
+            // it is directly padded
             codeSubstr = (codeSubstr << (TABLEBITSO - ptrSubstr));
             ptrSubstr = TABLEBITSO;
           } else {
@@ -292,6 +293,11 @@ StringDictionaryRPHTFC::StringDictionaryRPHTFC(IteratorDictString *it,
     }
 
     delete[] tmp;
+
+    // Registering the substring still pending after the last header
+    if (textSubstr.size() > 0)
+      builderHT->insertEndingSubstr(&codeSubstr, &ptrSubstr, &textSubstr,
+                                    &lenSubstr);
 
     // bytesStrings++;
     xblStrings.push_back(bytesStrings + 1);
@@ -578,9 +584,14 @@ uchar *StringDictionaryRPHTFC::getHeader(size_t idbucket) {
 }
 
 ChunkScan StringDictionaryRPHTFC::decodeHeader(size_t idbucket) {
-  uchar *ptr = textStrings + blStrings->getField(idbucket);
+  size_t ptrH = blStrings->getField(idbucket);
+  uchar *ptr = textStrings + ptrH;
+  // Never read beyond the sequence: the last header is followed by padding
+  uint remain = maxcomplength;
+  if (bytesStrings - ptrH < remain)
+    remain = bytesStrings - ptrH;
   ChunkScan chunk = {
-      0, 0, ptr, maxcomplength, new uchar[4 * maxlength + tableHT->getK()],
+      0, 0, ptr, remain, new uchar[4 * maxlength + tableHT->getK()],
       0, 0, 1};
 
   // Variables used for adjusting purposes
